@@ -118,6 +118,15 @@ type Replay struct {
 	Schedule  []sched.Step    `json:"schedule,omitempty"`
 	Log       []string        `json:"log,omitempty"`
 	Faults    map[string]int  `json:"faults_fired,omitempty"`
+	// The scenario as first found, before minimisation, and the scenarios the worker process had run
+	// before it. They matter when the code under test keeps state between runs (a package-level
+	// pool or cache): the minimised scenario then fails only in the process that found it, and the
+	// replay falls back to "first" and then to "history + first" (ReplayMode, set by the driver
+	// once it knows which one reproduces in a fresh process).
+	First          json.RawMessage   `json:"first_scenario,omitempty"`
+	FirstTraceHash string            `json:"first_trace_hash,omitempty"`
+	History        []json.RawMessage `json:"history,omitempty"`
+	ReplayMode     string            `json:"replay_mode,omitempty"` // "", "first", "history"
 }
 
 // Stats is what one worker reports.
@@ -286,6 +295,10 @@ func Explore[S any](t *testing.T, c Check[S]) {
 		defer dumpRuns.Close()
 	}
 	var target string // violation kind being shrunk
+	var journal []json.RawMessage
+	journalBytes := 0
+	var firstRaw json.RawMessage
+	var firstHash string
 	for batch := 0; time.Now().Before(deadline) && st.Violation == nil && !(oneBatch && batch > 0); batch++ {
 		batchSeed := SplitMix(workerSeed+uint64(batch)) | 1
 		_ = flag.Set("rapid.seed", strconv.FormatUint(batchSeed, 10))
@@ -299,6 +312,11 @@ func Explore[S any](t *testing.T, c Check[S]) {
 				return // budget used up: remaining iterations of this batch are no-ops
 			}
 			sc := c.Draw(rt, env.Tier)
+			if !failing && journalBytes < 6<<20 {
+				raw, _ := json.Marshal(sc)
+				journal = append(journal, raw)
+				journalBytes += len(raw)
+			}
 			sched.Heartbeat.Add(1) // checks without a scheduler (C16, parts of C07/C08/C09) make progress run by run
 			res := c.Run(t, sc, failing)
 			sched.Heartbeat.Add(1)
@@ -373,7 +391,12 @@ func Explore[S any](t *testing.T, c Check[S]) {
 			if !failing {
 				failing = true
 				target = unknown.Kind
+				firstRaw, _ = json.Marshal(sc)
+				if len(journal) > 0 {
+					journal = journal[:len(journal)-1] // the failing scenario itself
+				}
 				res = c.Run(t, sc, true) // same scenario again, now recording the schedule
+				firstHash = res.TraceHash
 				for i := range res.Violations {
 					if res.Violations[i].Kind == target {
 						unknown = &res.Violations[i]
@@ -381,7 +404,9 @@ func Explore[S any](t *testing.T, c Check[S]) {
 				}
 			}
 			rp := writeReplay(replayPath, c.Property, env, batchSeed, *unknown, res, sc)
-			st.Violation = rp
+			rp.First, rp.FirstTraceHash, rp.History = firstRaw, firstHash, journal
+			writeJSON(replayPath, rp)
+			st.Violation = &Replay{Property: rp.Property, Seed: rp.Seed, Worker: rp.Worker, Kind: rp.Kind, Signature: rp.Signature, Detail: rp.Detail, TraceHash: rp.TraceHash}
 			st.ReplayPath = replayPath
 			rt.Fatalf("violation %s", unknown.Kind)
 		})
@@ -460,7 +485,35 @@ func DoReplay[S any](t *testing.T, c Check[S], env Env) {
 		t.FailNow()
 	}
 	sched.StartWatchdog(300*time.Second, func() string { return "replay " + c.Property })
+	mode := rp.ReplayMode
+	if v := os.Getenv("VERIF_REPLAY_MODE"); v != "" {
+		mode = v
+	}
+	want := rp.TraceHash
+	if mode == "first" || mode == "history" {
+		if len(rp.First) == 0 {
+			fmt.Printf("REPLAY-NOT-REPRODUCED property=%s kind=%s (replay file has no first scenario for mode %s)\n", c.Property, rp.Kind, mode)
+			return
+		}
+		if mode == "history" {
+			for _, raw := range rp.History {
+				var hs S
+				if json.Unmarshal(raw, &hs) == nil {
+					c.Run(t, hs, false) // verdicts of the earlier runs are not judged: they only rebuild the process state
+					sched.Heartbeat.Add(1)
+				}
+			}
+		}
+		var fs S
+		if err := json.Unmarshal(rp.First, &fs); err != nil {
+			fmt.Printf("REPLAY-ERROR bad first scenario: %v\n", err)
+			t.FailNow()
+		}
+		sc = fs
+		want = rp.FirstTraceHash
+	}
 	res := c.Run(t, sc, true)
+	rp.TraceHash = want
 	found := false
 	for _, v := range res.Violations {
 		if v.Kind == rp.Kind {
